@@ -196,7 +196,7 @@ Definition remove_stream (r : reg) (p : pid) (s : sid) : reg :=
 Inductive event :=
 | Enrol (c : conn) (pe : peer) (closed : bool)   (* addPeer after a completed handshake *)
 | ConnClosed (c : conn)                          (* Notifiee.Disconnected *)
-| SLookup (s : sid) (p : pid)                    (* a new inbound stream s from p: getPeer *)
+| SLookup (s : sid) (p : pid)                    (* a new inbound stream s from p: the decisive lookup (first getPeer, waitHandshake, second getPeer) *)
 | STrack (s : sid)                               (* WithCancel + addStream *)
 | SStart (s : sid)                               (* ss.Handler invoked *)
 | SEnd (s : sid)                                 (* handler / header phase over: removeStream *)
